@@ -362,10 +362,10 @@ theorem insertRequest_sizes {s s' : St} {now : Nat} {r : DReq} (h : insertReques
       · exact ⟨by simp, by simp, by rw [wakeDispatch_timers]; exact DelayQ.insert_len hq⟩
       · exact ⟨rfl, rfl, DelayQ.insert_len hq⟩
 
-theorem rearmWith_sizes (s : St) (q : DelayQ) (id t : Nat) (r : DelayQ × DelayQ.InsertRes × Bool)
+theorem rearmWith_sizes (s : St) (q : DelayQ) (id t due : Nat) (r : DelayQ × DelayQ.InsertRes × Bool)
     (hr : r.1.len ≤ q.len + 1) (hq : q.len + 1 ≤ s.timers.len) :
-    (rearmWith s id t r).st.pq = s.pq ∧ (rearmWith s id t r).st.cq = s.cq ∧
-    (rearmWith s id t r).st.timers.len ≤ s.timers.len ∧ (∀ s', rearmWith s id t r ≠ .done s' true) := by
+    (rearmWith s id t due r).st.pq = s.pq ∧ (rearmWith s id t due r).st.cq = s.cq ∧
+    (rearmWith s id t due r).st.timers.len ≤ s.timers.len ∧ (∀ s', rearmWith s id t due r ≠ .done s' true) := by
   unfold rearmWith; split
   · exact ⟨rfl, rfl, Nat.le_refl _, by simp⟩
   · refine ⟨?_, ?_, ?_, by simp⟩
@@ -391,10 +391,11 @@ theorem expireWith_sizes (s : St) (now : Nat) (r : DelayQ × DelayQ.PollRes)
     split
     · rename_i en _
       split
-      · have hi : (q.insert now (clampTimeout (en.remainder - (now - e.whenMs * nsPerMs))) e.val).1.len ≤ q.len + 1 :=
+      · have hi : (q.insert now (clampTimeout (en.remainder - (now - en.dueAt))) e.val).1.len ≤ q.len + 1 :=
           DelayQ.insert_len' _ _ _ _
         obtain ⟨a1, a2, a3, a4⟩ := rearmWith_sizes s q e.val
-          (now - e.whenMs * nsPerMs + clampTimeout (en.remainder - (now - e.whenMs * nsPerMs))) _ hi hq
+          (now - en.dueAt + clampTimeout (en.remainder - (now - en.dueAt)))
+          (now + clampTimeout (en.remainder - (now - en.dueAt))) _ hi hq
         exact ⟨a1, a2, a3, fun s' h => absurd h (a4 s')⟩
       · have f := osSend_frameQ { s with timers := q, inflight := s.inflight.filter (·.id != e.val) } en.cid .deadline
         refine ⟨f.pq, f.cq, ?_, ?_⟩
